@@ -172,26 +172,38 @@ def check_block(text, policy):
         marker = [AsmBytecode(-1, -1, -1, "CALLER", None), AsmBytecode(-1, -1, -1, "POP", None)]
         head = [i for i in b.instructions if i.disasm in ("tag", "JUMPDEST")]
         tail = [i for i in b.instructions if i.disasm in ("JUMP", "JUMPI", "STOP", "RETURN", "REVERT", "INVALID", "SELFDESTRUCT")]
+        def bytecode(tok):
+            n, v = BC._tok2(tok)
+            return AsmBytecode(-1, -1, -1, n, v)
         for key in sfs:
             k = int(key[len(b.block_name) + 1:])
-            expect = [(i.disasm, i.value) for i in head]
-            for i, part in enumerate(parts):
-                if i > 0:
-                    expect.append(BC._tok2(subs[i][0]))
-                if i == k:
-                    expect += [("CALLER", None), ("POP", None)]
-                else:
-                    expect += [BC._tok2(t) for t in part]
-            expect += [(i.disasm, i.value) for i in tail]
-            try:
-                nb = rebuild_optimized_asm_block(b, copy.deepcopy(subs), {key: list(marker)})
-                got = [(i.disasm, None if i.value is None else str(i.value)) for i in nb.instructions]
-                exp = [(n, None if (v is None or n in ("JUMP", "JUMPI")) else str(v)) for n, v in expect]
-                got = [(n, None if n in ("JUMP", "JUMPI") else v) for n, v in got]
-                if got != exp:
-                    problems.append("replacing %s gives %s, expected %s" % (key, gasol.plain_of(got), gasol.plain_of(exp)))
-            except Exception as e:
-                problems.append("replacing %s raises %s" % (key, repr(e)[:120]))
+            # replacements: the marker, nothing at all, and code that ends / starts like the neighbouring split instruction
+            # (an optimized sub-block may well end in the opcode it is split at)
+            repls = [list(marker), []]
+            if k + 1 < len(subs):
+                repls.append([marker[0], bytecode(subs[k + 1][0])])
+                repls.append([bytecode(subs[k + 1][0])])
+            if k > 0:
+                repls.append([bytecode(subs[k][0]), marker[1]])
+            for repl in repls:
+                expect = [(i.disasm, i.value) for i in head]
+                for i, part in enumerate(parts):
+                    if i > 0:
+                        expect.append(BC._tok2(subs[i][0]))
+                    if i == k:
+                        expect += [(r.disasm, r.value) for r in repl]
+                    else:
+                        expect += [BC._tok2(t) for t in part]
+                expect += [(i.disasm, i.value) for i in tail]
+                try:
+                    nb = rebuild_optimized_asm_block(b, copy.deepcopy(subs), {key: list(repl)})
+                    got = [(i.disasm, None if i.value is None else str(i.value)) for i in nb.instructions]
+                    exp = [(n, None if (v is None or n in ("JUMP", "JUMPI")) else str(v)) for n, v in expect]
+                    got = [(n, None if n in ("JUMP", "JUMPI") else v) for n, v in got]
+                    if got != exp:
+                        problems.append("replacing %s by [%s] gives %s, expected %s" % (key, " ".join(r.disasm for r in repl), gasol.plain_of(got), gasol.plain_of(exp)))
+                except Exception as e:
+                    problems.append("replacing %s raises %s" % (key, repr(e)[:120]))
     return problems, info
 
 
